@@ -1,4 +1,5 @@
 import CpModel.Opp.Msg
+import CpModel.Opp.Ldap
 import CpModel.Tls.Canon
 import CpSpec.Opp
 /-
@@ -100,7 +101,10 @@ def oppClasses : List DrvClass := [
   ⟨"SpecLdapStartTlsResponse", fun bs =>
     match bs with
     | [rc] => .ok (s!"SpecLdapStartTlsResponse({rc.toNat})", 1, .ok (Spec.Opp.ldapStartTlsResponse rc.toNat))
-    | _ => .error .invalidValue⟩
+    | _ => .error .invalidValue⟩,
+  -- not a class: `LDAPMessageParsableBase._get_message_size` on the given octets (the size is reported
+  -- as the consumed length)
+  ⟨"LdapMessageSize", fun bs => (ldapMessageSize bs).map fun n => ("LdapMessageSize()", n, .ok [])⟩
 ]
 
 end Cp.Opp
